@@ -241,6 +241,21 @@ def T_LOOP_ASSIGNS(mtx):
 
 
 FN = {
+    # ---- constructors: the initial state is the one the other contracts start from
+    r'Latch::ctor__int': dict(
+        props='C10', requires=['!vf_exc'],
+        ensures=[('C10', 'self->counter_.v == start && !self->mtx.excl_me && self->mtx.shared_me == 0 && !vf_exc', 'a new latch counts down from exactly `start` and is unlocked')],
+        assigns='*self'),
+    r'Barrier::ctor__size_t': dict(
+        props='C09', requires=['!vf_exc'],
+        ensures=[('C09', 'self->threshold_ == count && self->count_ == count && self->generation_ == 0 && !self->mtx.excl_me && self->mtx.shared_me == 0 && !vf_exc',
+                  'a new barrier expects exactly `count` participants in generation 0 and is unlocked')],
+        assigns='*self'),
+    r'TriggerVariable::ctor__bool': dict(
+        props='C11', requires=['!vf_exc'],
+        ensures=[('C11', '(!self->activated.v) == (!active) && !self->triggered.v && !self->triggerLock.excl_me && !self->activeLock.excl_me && !vf_exc',
+                  'a new trigger variable is active iff asked, never triggered, unlocked')],
+        assigns='*self'),
     r'Latch::arrive': dict(
         props='C10', setup=LATCH_SETUP,
         requires=['vf_L == self && vf_B == 0 && vf_T == 0 && L_INV && L_IDLE && g_arr < VF_BIG - 2 && g_my_arr >= 0 && g_my_arr < 1000 && !vf_exc'],
